@@ -324,6 +324,36 @@ def prepare(c):
     return cases
 
 
+def prepare_ed(c):
+    """evaluate_deltas=True against the fragment model: one-term inputs whose
+    simplified form carries exactly one delta (then the order in which sympy
+    lists several deltas cannot matter)"""
+    if c.raised is not None or c.res_ed is None or len(c.groups) != 1:
+        return None
+    last = c.levels[0][-1]
+    nd = sum(1 for a, inv_ in last[1] if a[0] == "D")
+    if nd != 1 or any(a[0] == "D" and inv_ for a, inv_ in last[1]):
+        return None
+    # substitution must not trigger a re-canonicalisation of a tensor
+    # (sorting with sign / Pauli zero / bra-ket swap): outside the fragment
+    for a, _ in last[1]:
+        ts = [a] if a[0] == "T" else \
+            [t for _, tl in a[1] for t in tl] if a[0] == "P" else []
+        for t in ts:
+            if t[1] != "KNonSym" and (len(t[4]) > 1 or len(t[5]) > 1
+                                      or t[3] != 0):
+                return None
+    try:
+        out = adcio.conv_expr(c.res_ed.sympy, c.ictx)
+    except adcio.Unsupported:
+        return None
+    if len(out) > 1:
+        return None
+    out_t = out[0] if out else (Fraction(0), [])
+    return (f"ed_code 4 {coq_prov(c.prov)} {adcio.coq_term(last)} "
+            f"{adcio.coq_term(out_t)}")
+
+
 def parse_verdict(v):
     """'([0; 0], true, false)' -> ([0, 0], True, False)"""
     import re
@@ -474,6 +504,16 @@ def judge(ctx, c, verdicts, stats):
     single = is_single_sort(c)
     models = None
     unexplained = []
+    # the tracer must have seen one call group per term of the input
+    nterms = len(c.E.terms)
+    seen = len(c.groups)
+    ok_tr = (seen == nterms) if c.raised is None else (1 <= seen <= nterms)
+    if not ctx.obligation(f"tracer recorded every term {label}", ok_tr,
+                          f"groups={seen} terms={nterms}"):
+        ctx.violation(f"C20:tracer:{c.E.sympy}", "the recursion levels of "
+                      "simplify_term_unitary could not be observed (closure "
+                      "renamed or restructured?)", describe(c), False)
+        return
 
     # ---- F: per level against unitary_pass; R: reachability ----------------
     for g, v in enumerate(verdicts):
@@ -681,7 +721,21 @@ def run_specs(ctx, specs, tag, stats, shard=150):
         spans.append((len(coq_cases), len(coq_cases) + len(pc)))
         coq_cases += pc
         cases.append(c)
+        c.ed_case = prepare_ed(c)
     vals, errs = ctx.coq_eval(tag, coq_cases, header=HEADER, shard=shard)
+    ed_idx = [k for k, c in enumerate(cases) if c.ed_case is not None]
+    ed_vals, _ = ctx.coq_eval(tag + "_ed", [cases[k].ed_case for k in ed_idx],
+                              header=HEADER, shard=shard)
+    for k, v in zip(ed_idx, ed_vals):
+        c = cases[k]
+        stats["ed_fragment_compared"] += 1
+        ok = v is not None and v.replace("%nat", "").strip() == "0"
+        if not ctx.obligation("evaluate_deltas=True == fragment model "
+                              "eval_deltas(targets_by_objects)", ok,
+                              json.dumps(describe(c))[:1200]):
+            ctx.violation(f"C20:ed-model-mismatch:{c.E.sympy}:{c.prov}",
+                          "simplify_unitary(evaluate_deltas=True) differs from "
+                          "the model simplify_ed_as_coded", describe(c), False)
     for c, (a, b) in zip(cases, spans):
         judge(ctx, c, vals[a:b], stats)
 
@@ -693,7 +747,7 @@ def run(ctx):
         "levels", "covered_by_theorem", "outside_side_condition",
         "value_checked", "value_skipped", "einstein_target_drift", "ed_cases",
         "ed_differs_from_target_respecting", "ed_value_checked",
-        "evaluate_deltas_itself_changes_value_C09")}
+        "evaluate_deltas_itself_changes_value_C09", "ed_fragment_compared")}
     run_specs(ctx, CORPUS, "corpus", stats)
     run_specs(ctx, exhaustive_specs(full=False), "exh", stats)
     if not quick:
@@ -728,7 +782,7 @@ def replay(ctx, rep):
         "levels", "covered_by_theorem", "outside_side_condition",
         "value_checked", "value_skipped", "einstein_target_drift", "ed_cases",
         "ed_differs_from_target_respecting", "ed_value_checked",
-        "evaluate_deltas_itself_changes_value_C09")}
+        "evaluate_deltas_itself_changes_value_C09", "ed_fragment_compared")}
     judge(ctx, c, vals, stats)
     for v in ctx.violations:
         print("VIOLATION", v["key"], v["what"],
